@@ -228,6 +228,10 @@ def impl_read(path, fmt, tables=None):
         Species.set_known_pseudoelements(list(tables["pseudo"]))
     with quiet():
         net = Network(filelist=str(path), fileformats=fmt)
+    return dump(net)
+
+
+def dump(net):
     out = []
     for r in net.reaction_list:
         out.append(dict(reac=[s.name for s in r.reactants], prod=[s.name for s in r.products], a=r.alpha, b=r.beta, c=r.gamma, tmin=float(r.temp_min),
@@ -408,12 +412,66 @@ def check_bundled(res, model, rel, fmt):
     res.count("bundled files")
 
 
+def check_multi(res, model, rng, tag):
+    """several files in ONE network (filelist of two or three files, and add_reaction_from_file called in turn): every file
+    is decoded as if it were read alone - nothing of a file (KROME @format / @var / @common, a reader's settings) reaches the next"""
+    k = rng.randint(2, 3)
+    fmts = [rng.choice(["krome", "krome", "kida", "umist", "naunet", "uclchem"]) for _ in range(k)]
+    if rng.random() < 0.6:
+        fmts[0] = fmts[1] = "krome"
+    files, d = [], ol.scratch_dir()
+    for j, fmt in enumerate(fmts):
+        while True:
+            lines, abstract = make_file(rng, fmt, rng.randint(1, 6))
+            if j == 0 or not any(l.startswith("@format") for l in lines):
+                break                      # later KROME files carry no directive of their own: the default layout applies
+        if fmt == "krome" and j + 1 < k and rng.random() < 0.7:
+            lines.append("@format:" + rng.choice(KFORMATS))       # the file ends under a non-default layout
+            abstract.append(None)
+        p = d / f"net{j}.{fmt}"
+        p.write_text("\n".join(lines) + "\n")
+        files.append((p, fmt, lines, abstract))
+    case = {"kind": "c07-multi", "files": [[fmt, lines] for _, fmt, lines, _ in files]}
+    res.count("multi-file networks")
+    try:
+        alone = [impl_read(p, fmt) for p, fmt, _, _ in files]
+    except Exception as e:
+        res.count("multi-file: a file is rejected alone (skipped)")
+        ol.cleanup_scratch()
+        return
+    want = [r for a in alone for r in a]
+    got = {}
+    try:
+        reset_globals()
+        with quiet():
+            got["Network(filelist=[...])"] = dump(Network(filelist=[str(p) for p, _, _, _ in files], fileformats=[fmt for _, fmt, _, _ in files]))
+        reset_globals()
+        with quiet():
+            net = Network()
+            for p, fmt, _, _ in files:
+                net.add_reaction_from_file(str(p), fmt)
+        got["add_reaction_from_file in turn"] = dump(net)
+    except Exception as e:
+        res.violation("oracle", f"files that are each decoded alone are rejected when read into one network: {type(e).__name__}: {e}", case)
+        ol.cleanup_scratch()
+        return
+    for how, g in got.items():
+        if g != want:
+            kbad = next((i for i, (a, b) in enumerate(zip(g, want)) if a != b), min(len(g), len(want)))
+            res.violation("oracle", f"{how} of {[fmt for _, fmt, _, _ in files]}: reaction {kbad} is decoded as {g[kbad] if kbad < len(g) else None}, "
+                                    f"read alone its file gives {want[kbad] if kbad < len(want) else None} ({len(g)} reactions against {len(want)})", case)
+            break
+    ol.cleanup_scratch()
+    res.case(("c07-multi", tag, tuple(fmts)), sample={"formats": fmts}, nontrivial=True)
+
+
 def run(res, info):
     rng = random.Random(res.seed * 7919 + 7)
     model = fw.Model() if info["ok"] else None
     res.rule = ("files of 1-12 lines per format, each data line encoded from an abstract reaction (1-3 reactants with repeats, 0-5 products, marker "
                 "tokens, every format code, signed/zero coefficients, six window shapes) with blank/comment/directive lines interleaved, LF and CRLF, "
-                "with and without final newline; bundled fixture files line by line; a malformed stream (dropped / extra fields); "
+                "with and without final newline; two or three files (KROME files ending under a non-default @format first) read into one network "
+                "both ways against each file read alone; bundled fixture files line by line; a malformed stream (dropped / extra fields); "
                 "non-trivial = at least one data line")
     res.assumptions = ["species names of at most 10 (KIDA) / 9 (Leeds) characters so that fixed-width columns keep a separating blank",
                        "UCLCHEM freeze-out lines get the window 0..30 K (documented in the class)"]
@@ -444,6 +502,8 @@ def run(res, info):
                 l = l[:90] + " ".join(parts)
             res.count("malformed lines")
             check_file(res, model, fmt, [l], None, ("malformed", i))
+    for i in range(60 if res.tier == "quick" else 1500):
+        check_multi(res, model, rng, i)
     for rel, fmt in BUNDLED + (BUNDLED_BIG if res.tier == "thorough" else []):
         check_bundled(res, model, rel, fmt)
     if model:
